@@ -66,6 +66,11 @@ class TD2(TypedDict):
     c: A
 
 
+class TD3(TypedDict):
+    a: Optional[int]
+    b: NotRequired[Optional[str]]
+
+
 NT = NewType("NT", int)
 NS = NewType("NS", str)
 
